@@ -4,11 +4,11 @@ import MpfVerif.Lemmas.EventBus
 namespace MpfVerif.QueueEvent
 
 /-- serials of the callbacks logged so far -/
-def cbs (log : List Obs) : List Nat := log.filterMap (fun o => match o with | .cb _ sn => some sn | _ => none)
+def cbs (log : List Obs) : List Nat := log.filterMap (fun o => match o with | .cb _ sn _ => some sn | _ => none)
 
 /-- keys of the handlers invoked so far (sync and coroutine handlers) -/
 def callKeys (log : List Obs) : List Nat :=
-  log.filterMap (fun o => match o with | .call k _ _ _ => some k | .acall k _ _ _ => some k | _ => none)
+  log.filterMap (fun o => match o with | .call k _ _ _ _ => some k | .acall k _ _ _ _ => some k | _ => none)
 
 theorem clearCell_log (st : St) (c : Nat) : cbs (clearCell st c).log = cbs st.log ∧ callKeys (clearCell st c).log = callKeys st.log := by
   unfold clearCell
@@ -30,12 +30,18 @@ theorem runAct_log (own passed : Option Nat) (st : St) (a : Act) :
   | wait => cases own <;> simp [runAct, waitCell_log]
   | clearOwn => cases own <;> simp [runAct, clearCell_log]
   | clearPassed => cases passed <;> simp [runAct, clearCell_log]
-  | postQueue ev cb pass => simp [runAct]
+  | postQueue ev cb pass kw => simp only [runAct]; split <;> simp
   | add ev h => simp [runAct]
   | remove ev k => simp [runAct]
   | replace ev h => simp [runAct]
   | removeFn pid => simp [runAct]
   | removeEvFn ev pid => simp [runAct]
+  | cancelCoro k => simp [runAct]
+  | resolveWait w =>
+    simp only [runAct]
+    split <;> simp [cbs, callKeys, List.filterMap_append]
+  | cancelWait w => simp only [runAct]; split <;> simp
+  | stop => simp [runAct, stopAll]
 
 theorem runActs_log (own passed : Option Nat) (st : St) (acts : List Act) :
     cbs (runActs own passed st acts).log = cbs st.log ∧ callKeys (runActs own passed st acts).log = callKeys st.log := by
@@ -47,58 +53,88 @@ theorem runActs_log (own passed : Option Nat) (st : St) (acts : List Act) :
     have h2 := ih (runAct own passed st a)
     exact ⟨h2.1.trans h1.1, h2.2.trans h1.2⟩
 
-theorem runCallback_log (progs : Nat → Prog) (st : St) (pid sn : Nat) (passed : Option Nat) :
-    cbs (runCallback progs st pid sn passed).log = cbs st.log ++ [sn] ∧
-    callKeys (runCallback progs st pid sn passed).log = callKeys st.log := by
+theorem runCallback_log (progs : Nat → Prog) (st : St) (pid sn : Nat) (passed : Option Nat) (kw : Kw) :
+    cbs (runCallback progs st pid sn passed kw).log = cbs st.log ++ [sn] ∧
+    callKeys (runCallback progs st pid sn passed kw).log = callKeys st.log := by
   unfold runCallback
-  have h := runActs_log none passed { st with log := st.log ++ [Obs.cb pid sn] } (progs pid).acts
+  have h := runActs_log none passed { st with log := st.log ++ [Obs.cb pid sn kw] } (progs pid).acts
   rw [h.1, h.2]
   simp [cbs, callKeys, List.filterMap_append]
 
-/-- What one scheduler step of a dispatch task does, for every handler program: it invokes a prefix of the remaining
-snapshot, in order; either it reaches the end, logs the callback exactly once and is done, or it stops right behind
-the first handler that left its wait registered and sleeps — the rest of the snapshot untouched, no callback. -/
+theorem getCell_setCell (cells : List Cell) (i : Nat) (c : Cell) (h : i < cells.length) :
+    getCell (setCell cells i c) i = c := by
+  induction cells generalizing i with
+  | nil => simp at h
+  | cons x r ih =>
+    cases i with
+    | zero => simp [setCell, getCell]
+    | succ n =>
+      have := ih n (by simpa using h)
+      simpa [setCell, getCell] using this
+
+/-- the handlers of a snapshot that are actually called for a post with kwargs `kw`: those whose condition holds on the
+merged kwargs -/
+def eligible (kw : Kw) (hs : List Handler) : List Handler := hs.filter (fun h => condHolds h.cond (kwUpdate kw h.kw))
+
+/-- What one scheduler step of a dispatch task does, for every handler program: it invokes the eligible handlers of a
+prefix of the remaining snapshot, in order; either it reaches the end, logs the callback exactly once and is done, or it
+stops right behind the first handler that left its wait registered and sleeps — the rest of the snapshot untouched, no
+callback. -/
 theorem runTask_spec (progs : Nat → Prog) (t : Task) (hs : List Handler) (st : St) :
     (∃ pre post, hs = pre ++ post ∧
-      callKeys (runTask progs t hs st).1.log = callKeys st.log ++ pre.map (·.key) ∧
+      callKeys (runTask progs t hs st).1.log = callKeys st.log ++ (eligible t.kw pre).map (·.key) ∧
       (((runTask progs t hs st).2.done = true ∧ post = [] ∧ (runTask progs t hs st).2.awaiting = none ∧
           cbs (runTask progs t hs st).1.log = cbs st.log ++ [t.sn]) ∨
-       ((runTask progs t hs st).2.done = t.done ∧ pre ≠ [] ∧ (runTask progs t hs st).2.rest = some post ∧
+       ((runTask progs t hs st).2.done = t.done ∧ eligible t.kw pre ≠ [] ∧ (runTask progs t hs st).2.rest = some post ∧
           (∃ c e, (runTask progs t hs st).2.awaiting = some (c, e)) ∧
           cbs (runTask progs t hs st).1.log = cbs st.log))) := by
   induction hs generalizing st with
   | nil =>
     refine ⟨[], [], rfl, ?_, Or.inl ?_⟩
-    · simp [runTask, (runCallback_log progs st t.cb t.sn t.passed).2]
-    · simp [runTask, (runCallback_log progs st t.cb t.sn t.passed).1]
+    · simp [runTask, eligible, (runCallback_log progs st t.cb t.sn t.passed t.kw).2]
+    · simp [runTask, (runCallback_log progs st t.cb t.sn t.passed t.kw).1]
   | cons h hs ih =>
-    simp only [runTask]
-    -- the state after the handler body
-    generalize hst1 : (if (progs h.pid).async = true then
-        waitCell { st with cells := st.cells ++ [{}], log := st.log ++
-          [if (progs h.pid).async = true then Obs.acall h.key t.ev t.sn st.cells.length else Obs.call h.key t.ev t.sn st.cells.length] } st.cells.length
-      else runActs (some st.cells.length) none { st with cells := st.cells ++ [{}], log := st.log ++
-          [if (progs h.pid).async = true then Obs.acall h.key t.ev t.sn st.cells.length else Obs.call h.key t.ev t.sn st.cells.length] }
-          (progs h.pid).acts) = st1
-    have hlog : cbs st1.log = cbs st.log ∧ callKeys st1.log = callKeys st.log ++ [h.key] := by
-      rw [← hst1]
+    rw [runTask]
+    by_cases hc : condHolds h.cond (kwUpdate t.kw h.kw) = true
+    · simp only [hc, Bool.not_true, Bool.false_eq_true, if_false]
+      -- the state after the handler body
+      generalize hst1 : (if (progs h.pid).async = true then
+          waitCell { st with cells := st.cells ++ [{}], log := st.log ++
+            [if (progs h.pid).async = true then Obs.acall h.key t.ev t.sn st.cells.length (kwUpdate t.kw h.kw)
+             else Obs.call h.key t.ev t.sn st.cells.length (kwUpdate t.kw h.kw)] } st.cells.length
+        else runActs (some st.cells.length) none { st with cells := st.cells ++ [{}], log := st.log ++
+            [if (progs h.pid).async = true then Obs.acall h.key t.ev t.sn st.cells.length (kwUpdate t.kw h.kw)
+             else Obs.call h.key t.ev t.sn st.cells.length (kwUpdate t.kw h.kw)] }
+            (progs h.pid).acts) = st1
+      have hlog : cbs st1.log = cbs st.log ∧ callKeys st1.log = callKeys st.log ++ [h.key] := by
+        rw [← hst1]
+        split
+        · rename_i ha
+          rw [(waitCell_log _ _).1, (waitCell_log _ _).2]
+          simp [cbs, callKeys, List.filterMap_append]
+        · rename_i ha
+          rw [(runActs_log _ _ _ _).1, (runActs_log _ _ _ _).2]
+          simp [cbs, callKeys, List.filterMap_append]
       split
-      · rename_i ha
-        rw [(waitCell_log _ _).1, (waitCell_log _ _).2]
-        simp [cbs, callKeys, List.filterMap_append]
-      · rename_i ha
-        rw [(runActs_log _ _ _ _).1, (runActs_log _ _ _ _).2]
-        simp [cbs, callKeys, List.filterMap_append]
-    split
-    · -- the handler left its wait registered: sleep
-      refine ⟨[h], hs, rfl, ?_, Or.inr ⟨rfl, by simp, rfl, ⟨_, _, rfl⟩, ?_⟩⟩
-      · simpa using hlog.2
-      · simpa using hlog.1
-    · obtain ⟨pre, post, hsplit, hkeys, hcase⟩ := ih st1
+      · -- the handler left its wait registered: sleep
+        refine ⟨[h], hs, rfl, ?_, Or.inr ⟨rfl, by simp [eligible, hc], rfl, ⟨_, _, rfl⟩, ?_⟩⟩
+        · simpa [eligible, hc] using hlog.2
+        · simpa using hlog.1
+      · obtain ⟨pre, post, hsplit, hkeys, hcase⟩ := ih st1
+        refine ⟨h :: pre, post, by rw [hsplit]; rfl, ?_, ?_⟩
+        · rw [hkeys, hlog.2]; simp [eligible, hc]
+        · rcases hcase with ⟨hd, hp, ha, hcb⟩ | ⟨hd, hp, hr, ha, hcb⟩
+          · exact Or.inl ⟨hd, hp, ha, by rw [hcb, hlog.1]⟩
+          · exact Or.inr ⟨hd, by simp [eligible, hc], hr, ha, by rw [hcb, hlog.1]⟩
+    · -- condition false: `continue`
+      have hc' : condHolds h.cond (kwUpdate t.kw h.kw) = false := by simpa using hc
+      simp only [hc', Bool.not_false, if_true]
+      obtain ⟨pre, post, hsplit, hkeys, hcase⟩ := ih st
       refine ⟨h :: pre, post, by rw [hsplit]; rfl, ?_, ?_⟩
-      · rw [hkeys, hlog.2]; simp
-      · rcases hcase with ⟨hd, hp, ha, hc⟩ | ⟨hd, hp, hr, ha, hc⟩
-        · exact Or.inl ⟨hd, hp, ha, by rw [hc, hlog.1]⟩
-        · exact Or.inr ⟨hd, by simp, hr, ha, by rw [hc, hlog.1]⟩
+      · rw [hkeys]; simp [eligible, hc']
+      · rcases hcase with ⟨hd, hp, ha, hcb⟩ | ⟨hd, hp, hr, ha, hcb⟩
+        · exact Or.inl ⟨hd, hp, ha, hcb⟩
+        · refine Or.inr ⟨hd, ?_, hr, ha, hcb⟩
+          simpa [eligible, hc'] using hp
 
 end MpfVerif.QueueEvent
